@@ -378,6 +378,12 @@ def optimize_circuit(seq):
                 b = q[i + 1]
                 # the ops must have equal size and act on the same wires
                 if a.op.ns == b.op.ns and a.reg == b.reg:
+                    if len(a.get_dependencies()) != 1 or len(b.get_dependencies()) != 1:
+                        # a measured parameter puts the command on other wires of the grid as well;
+                        # merging on this wire only would leave the unmerged copies (or a second
+                        # merged copy) on those wires. Treat it as a failed merge.
+                        i += 1
+                        continue
                     if a.op.ns != 1:
                         # ns > 1 is tougher. on no wire must there be anything
                         # between them, also deleting is more complicated
